@@ -620,8 +620,8 @@ def run_ieee(ctx):
     t0 = time.time()
     quick = ctx.tier == "quick"
     ctx.run_regressions()
-    n_full = (1 << 20) if quick else (1 << 24)
-    n_small = (1 << 18) if quick else (1 << 22)
+    n_full = (1 << 20) if quick else (1 << 22)
+    n_small = (1 << 18) if quick else (1 << 20)
     seed = ctx.seed * 7919 + 17
     found_input = False
     broken = []          # correspondence streams that stopped checking without a falsifying input
